@@ -52,6 +52,34 @@ Theorem C08_no_data_race_no_lock_misuse :
 Proof. exact facts_race_free. Qed.
 Print Assumptions C08_no_data_race_no_lock_misuse.
 
+(* Panics.  [i_panic I] lists, per operation, its panic exits taken while a lock is held: what the call
+   had done when a callee (index / store helper, writer, user callback) or an index expression panicked,
+   followed by the deferred calls of every activation, innermost first.  For the three writable stores
+   the discipline holds with these exits counted among the ways a call can run ([with_panics]): every
+   lock is released by a deferred unlock, nothing guarded is touched after it -- so a goroutine that
+   recovers from such a panic leaves no lock behind: still no race, no unlock of an unheld mutex, and no
+   stuck configuration, whatever the other goroutines do. *)
+Theorem C08_recovered_panics_release_every_lock :
+  forall I, In I facts -> String.eqb (i_name I) "ReadOnly" = false ->
+  forall (progs : list (list act)) (c : cfg),
+    Forall (client_code (with_panics I)) progs ->
+    steps (i_table I) (init progs) c ->
+    ~ race c /\ ~ bad_unlock c /\
+    ((exists t, In t (ts c) /\ code t <> []) -> exists i a c', step (i_table I) c i a c').
+Proof. exact facts_panics_race_free. Qed.
+Print Assumptions C08_recovered_panics_release_every_lock.
+
+(* ReadOnly.AllKeysChan cannot use a deferred unlock (it hands its read lock to the goroutine it
+   starts): a panic between RLock and the hand-off (in carv1.ReadHeader / HeaderSize / Seek) would leave
+   the read lock held and block Close for ever.  These are the only panic exits of ReadOnly that leave a
+   lock behind; C09 proves that the header parser does not panic; ReadOnly alone is not one of the
+   property's objects (ReadWrite has its own AllKeysChan). *)
+Theorem C08_readonly_allkeyschan_is_the_only_panic_exit_that_keeps_a_lock :
+  panic_violations inst_ReadOnly <> [] /\
+  forallb (fun v => String.eqb (fst v) "AllKeysChan") (panic_violations inst_ReadOnly) = true.
+Proof. exact readonly_panic_leaks. Qed.
+Print Assumptions C08_readonly_allkeyschan_is_the_only_panic_exit_that_keeps_a_lock.
+
 (* section isolation: while a thread holds the mutex guarding field f exclusively, no other thread is
    at an access of f; while it holds it shared, no other thread is at a write of f *)
 Theorem C08_critical_sections_are_isolated :
